@@ -151,7 +151,17 @@ func runC20(r *vk.Run) {
 					cs.Labels[k] = vk.Pick(rng, vals)
 				}
 			}
+			if c.Idx%8 == 5 {
+				// a container as real deployments label it: dozens of labels (compose, OCI image annotations,
+				// a reverse proxy's routing rules) around the ones under test -- every one of them counts
+				for j := 0; j < 45; j++ {
+					cs.Labels[fmt.Sprintf("%s%02d.filler", vk.Pick(rng, []string{"aa.", "org.opencontainers.image.", "traefik.http.routers.r", "zz-", "M"}), j)] = "f"
+				}
+			}
 			inv = append(inv, cs)
+		}
+		if c.Idx%8 == 5 {
+			c.Count("containers_with_dozens_of_labels", 1)
 		}
 		k := vk.Pick(rng, keyPool)
 		v := vk.Pick(rng, vals)
@@ -351,4 +361,5 @@ func runC20(r *vk.Run) {
 	r.Require("function_name_as_label", 20)
 	r.Require("docker_label_named_like_builtin", 20)
 	r.Require("json_keys_meeting_an_existing_label", 300)
+	r.Require("containers_with_dozens_of_labels", 100)
 }
